@@ -84,6 +84,60 @@ Theorem C32_contains_prefix_match : forall c p,
 Proof. exact contains_prefix_match_stmt. Qed.
 Print Assumptions C32_contains_prefix_match.
 
+(* ================= end to end: settings layer (flags, environment, Settings.merge) + authorizer =================
+   [sources] = the two command line flags and the two environment variables; [pcidr] = net.ParseCIDR (any function).
+   [e2e_resolve pip pcidr mfix s q]: LoadSettings -> TrustForwardedHeaders()/TrustedProxyCIDRs() ->
+   NewLuaAuthorizerWithOptions -> resolveClientIPAndScheme.  [mfix = false] = Settings.merge as it is,
+   [mfix = true] = after fixes/C32-settings-merge-slices.patch.
+   The property: forwarded headers are honoured only if trusted, the peer is known, and either NO source configured
+   any entry or the peer lies inside a usable entry of the configured list (the environment's entries when it has
+   any, else the command line's) — a list configured by either source never degrades to trust-all. *)
+Definition C32_e2e_full (mfix : bool) : Prop :=
+  forall (pip : bytes -> option N) (pcidr : bytes -> option cidr) s q,
+  e2e_resolve pip pcidr mfix s q <> (Peer, default_scheme q) ->
+  merged_trust s = true /\
+  exists t p, q_remote q = Some t /\ pip t = Some p /\
+    ((cli_entries s = [] /\ env_entries s = []) \/
+     exists e c, In e (match env_entries s with [] => cli_entries s | l => l end) /\
+                 pcidr e = Some c /\ contains c p = true).
+
+(* violated by the code as it is: Settings.merge overwrites slice fields unconditionally, so the environment's
+   (unset = nil) value replaces a list given on the command line *)
+Theorem C32_e2e_refuted : ~ C32_e2e_full false.
+Proof. exact e2e_refuted_stmt. Qed.
+Print Assumptions C32_e2e_refuted.
+
+Theorem C32_e2e_witness :   (* -trustForwardedHeaders -trustedProxyCIDRs=10.0.0.0/8, peer 203.0.113.9 *)
+  e2e_resolve wit_pip wit_pcidr false wit_sources wit_req = (Fwd 281470849515521, B"https") /\
+  cli_entries wit_sources = [B"10.0.0.0/8"] /\ env_entries wit_sources = [] /\
+  contains (mkCidr true 281470849515520 8) 281474087547145 = false /\
+  e2e_resolve wit_pip wit_pcidr true wit_sources wit_req = (Peer, B"http").
+Proof. exact e2e_witness_stmt. Qed.
+Print Assumptions C32_e2e_witness.
+
+(* it holds whenever the command line configures no entry or the environment configures at least one *)
+Theorem C32_e2e_partial : forall (pip : bytes -> option N) (pcidr : bytes -> option cidr) s q,
+  cli_entries s = [] \/ env_entries s <> [] ->
+  e2e_resolve pip pcidr false s q <> (Peer, default_scheme q) ->
+  merged_trust s = true /\
+  exists t p, q_remote q = Some t /\ pip t = Some p /\
+    ((cli_entries s = [] /\ env_entries s = []) \/
+     exists e c, In e (match env_entries s with [] => cli_entries s | l => l end) /\
+                 pcidr e = Some c /\ contains c p = true).
+Proof. exact e2e_partial_stmt. Qed.
+Print Assumptions C32_e2e_partial.
+
+(* what the code does: whatever -trustedProxyCIDRs says is ignored *)
+Theorem C32_e2e_cli_list_ignored : forall (pip : bytes -> option N) (pcidr : bytes -> option cidr) ct cc cc' et ec q,
+  e2e_resolve pip pcidr false (mkSources ct cc et ec) q = e2e_resolve pip pcidr false (mkSources ct cc' et ec) q.
+Proof. exact e2e_asis_ignores_cli_stmt. Qed.
+Print Assumptions C32_e2e_cli_list_ignored.
+
+(* with slices merged only when non-empty the end-to-end property holds for every configuration *)
+Theorem C32_e2e_merge_fixed : C32_e2e_full true.
+Proof. exact e2e_fixed_stmt. Qed.
+Print Assumptions C32_e2e_merge_fixed.
+
 (* ---- HISTORICAL: the decision before /repo 4284846 ([resolve pip] = [resolve_gen pip false]: an EMPTY slice of
    parsed networks meant "trust every peer").  Machine-checked record of the old defect; says nothing about the
    current code. ---- *)
